@@ -76,6 +76,28 @@ pub fn run(n: usize, rng: &mut Rng, rep: &mut Report) {
             let sx = serialize(&evs, true);
             if sh != h1 { rep.violation("serializer-html", input.clone(), format!("built-in {:?} vs events {:?}", h1, sh)); }
             if sx != x1 { rep.violation("serializer-xhtml", input.clone(), format!("built-in {:?} vs events {:?}", x1, sx)); }
+            // a pure function of the TREE: edit the rendered tree through its public fields and render again - the result must be
+            // that of the same edit on a twin that was never rendered (anything render() left behind in a node would show here)
+            if let Ok(mut twin) = crate::util::guarded(|| md.parse(&d)) {
+                let mut rendered = tree;
+                fn edit(n: &mut markdown_it::Node, k: usize) {
+                    match k % 4 {
+                        0 => { n.children.pop(); }
+                        1 => { n.children.reverse(); }
+                        2 => { if let Some(c) = n.children.first_mut() { c.children.clear(); c.attrs.push(("data-x", "1".into())); } }
+                        _ => { if let Some(c) = n.children.last_mut() { if let Some(g) = c.children.first_mut() { g.children.clear(); } else { c.attrs.push(("data-y", "2".into())); } } }
+                    }
+                }
+                let k = d.len();
+                edit(&mut rendered, k); edit(&mut twin, k);
+                let a = crate::util::guarded(|| (rendered.render(), rendered.xrender()));
+                let b = crate::util::guarded(|| (twin.render(), twin.xrender()));
+                rep.stats.count("edited_after_render");
+                match (a, b) {
+                    (Ok(a), Ok(b)) => if a != b { rep.violation("render-history", input.clone(), format!("edit #{} after rendering gives {:?}; the same edit on a never-rendered tree gives {:?}", k % 4, a.0, b.0)); },
+                    (a, b) => if a.is_ok() != b.is_ok() { rep.violation("render-history", input.clone(), format!("edit #{}: rendered-then-edited ok={} fresh ok={}", k % 4, a.is_ok(), b.is_ok())); }
+                }
+            }
             // XHTML = HTML with " /" before '>' exactly at self-close events: remove them and compare
             let voids = evs.iter().filter(|e| matches!(e, Ev::SelfClose(..))).count();
             if x1.len() != h1.len() + 2 * voids { rep.violation("xhtml-diff", input.clone(), format!("xhtml {:?} html {:?} voids {}", x1, h1, voids)); }
